@@ -15,7 +15,7 @@ else:
             f"Quantified over: {_p.get('quantifier', {}).get('text', '')}\n\n"
             f"Anchored in: {', '.join(_p.get('anchors', {}).get('files', []))}\n")
 earlier = ""
-if wave in ("3", "4", "5", "6", "7"):
+if wave in ("3", "4", "5", "6", "7", "8"):
     # one-line descriptions of the changes earlier authors already produced for this property (their own words; nothing of /verif's checks)
     lines = []
     for d in sorted(glob.glob(f"/verif/seeded/{pid}-*/")):
@@ -94,7 +94,17 @@ Mutant b should be a COMBINATION slip: correct for every feature in isolation an
 TWO specific legal features meet (for instance a delay together with batch size > 1, an override together with sharing, training mode
 together with a resize, one particular class together with one particular option, two components of one container), preferably in a
 file that none of the changes listed below touches.
-""" + earlier if wave == "7" else "") + f"""
+""" + earlier if wave == "7" else "") + ("""Mutant a should be a COOPERATING-SITES slip: change TWO places (in different functions, ideally different files) so that each
+change ALONE leaves the library correct (or is a harmless refactor) and only the two TOGETHER break the property - e.g. a helper
+that now returns a view where its one caller now mutates in place; a default changed in a base class together with a subclass that
+stops passing the argument explicitly; a value now stored pre-scaled in one place and scaled again in another on one path only.
+Say in notes.md why each half alone is harmless.
+Mutant b should be a LIFECYCLE / MODE slip: wrong only across a lifecycle or mode transition of the objects involved - train() <->
+eval() switches, copy.deepcopy of a live object, state_dict() / load_state_dict() round trips, .to(dtype) / .double() conversions
+of a module that already holds state, re-use of one object after clear()/reset, a second instance created after the first has run
+(class-level or module-level state), garbage left by a failed (exception-raising) call that the caller catches and then continues.
+Keep the time budget in mind: you have about 20 minutes in total, so keep each mutant small and stop as soon as both are verified.
+""" + earlier if wave == "8" else "") + f"""
 For EACH mutant (a, b):
  1. Make the change in the worktree (start each from a clean tree: `git -C {wt} checkout -- .`).
  2. Run the existing test suite and make sure it still passes:
